@@ -1497,8 +1497,8 @@ def range_map_collect_to_push(fn, types):
         rng = _unblk(mp["recv"])
         cl = _unblk(mp["args"][0])
         if not (rng is not None and rng.get("k") == "struct" and rng.get("path") == "std::ops::Range" and cl is not None and cl.get("k") == "closure"
-                and len(cl.get("params") or []) == 1 and cl["params"][0].get("k") in ("bind", "wild")):
-            return x
+                and len(cl.get("params") or []) == 1 and cl["params"][0].get("k") == "bind"):
+            return x        # (a `|_|` closure builds an allocation of equal entries: mac.alloc_builder reads that form itself)
         if any(y.get("k") == "ret" for y in _walk(cl["body"])):
             return x
         _MC[0] += 1
